@@ -131,6 +131,166 @@ func randASCIIWord(r *rand.Rand) string {
 	return string(b)
 }
 
+// ---- well-formed XML replies with rpc-error elements in every lexical form ----------------------------
+
+const baseNS = "urn:ietf:params:xml:ns:netconf:base:1.0"
+
+func xmlEscape(s string) string {
+	s = strings.ReplaceAll(s, "&", "&amp;")
+	s = strings.ReplaceAll(s, "<", "&lt;")
+	return strings.ReplaceAll(s, ">", "&gt;")
+}
+
+// ErrForm is the lexical form of one rpc-error element.
+type ErrForm struct {
+	Prefix   string // "", "nc", "ns0", "netconf"
+	Open     string // what stands between the element name and '>' of the opening tag
+	OpenName string // short name of Open for tags/keys
+	CloseWS  string // white space before '>' of the closing tag
+	Severity string
+}
+
+func (f ErrForm) String() string {
+	s := "open=" + f.OpenName
+	if f.Prefix != "" {
+		s += ",prefix=" + f.Prefix
+	}
+	if f.CloseWS != "" {
+		s += ",close=ws"
+	}
+	return s
+}
+
+var errOpenForms = []struct{ name, text string }{
+	{"bare", ""}, {"bare", ""},
+	{"xmlns", ` xmlns="` + baseNS + `"`},
+	{"xmlns-prefix-decl", ` xmlns:acme="http://acme.example/ns"`},
+	{"ws", " "}, {"ws-lf", "\n"}, {"ws-lf-indent", "\n    "},
+	{"xmlns-ws", "\n  xmlns=\"" + baseNS + "\"\n"},
+	{"attr-single-quotes", ` xmlns='` + baseNS + `'`},
+	{"two-attrs", ` xmlns="` + baseNS + `" xmlns:acme="http://acme.example/ns"`},
+}
+
+// GenErrForm draws a lexical form.
+func GenErrForm(r *rand.Rand) ErrForm {
+	f := ErrForm{Severity: []string{"error", "error", "warning"}[r.Intn(3)]}
+	f.Prefix = []string{"", "", "", "nc", "nc", "ns0", "netconf"}[r.Intn(7)]
+	o := errOpenForms[r.Intn(len(errOpenForms))]
+	f.Open, f.OpenName = o.text, o.name
+	if f.Prefix != "" && strings.Contains(f.Open, `xmlns="`) {
+		f.Open = strings.ReplaceAll(f.Open, `xmlns="`, "xmlns:"+f.Prefix+`="`)
+	}
+	if f.Prefix != "" && strings.Contains(f.Open, `xmlns='`) {
+		f.Open = strings.ReplaceAll(f.Open, `xmlns='`, "xmlns:"+f.Prefix+`='`)
+	}
+	if r.Intn(10) == 0 {
+		f.CloseWS = []string{" ", "\n"}[r.Intn(2)]
+	}
+	return f
+}
+
+// Render writes the element; the prefix, if any, is declared on the element itself unless its
+// opening form already declares it (then rootDecl tells the caller nothing is needed).
+func (f ErrForm) Render(r *rand.Rand, msg string) (elem string, needsRootDecl bool) {
+	q := func(n string) string {
+		if f.Prefix != "" {
+			return f.Prefix + ":" + n
+		}
+		return n
+	}
+	needsRootDecl = f.Prefix != "" && !strings.Contains(f.Open, "xmlns:"+f.Prefix+"=")
+	var b strings.Builder
+	b.WriteString("<" + q("rpc-error") + f.Open + ">")
+	nl := []string{"", "\n", "\n  "}[r.Intn(3)]
+	b.WriteString(nl + "<" + q("error-type") + ">" + []string{"application", "protocol", "rpc", "transport"}[r.Intn(4)] + "</" + q("error-type") + ">")
+	b.WriteString(nl + "<" + q("error-tag") + ">invalid-value</" + q("error-tag") + ">")
+	b.WriteString(nl + "<" + q("error-severity") + ">" + f.Severity + "</" + q("error-severity") + ">")
+	if r.Intn(3) == 0 {
+		b.WriteString(nl + "<" + q("error-path") + ` xmlns:if="urn:example:if">/if:interfaces/if:interface[if:name='eth0']</` + q("error-path") + ">")
+	}
+	b.WriteString(nl + "<" + q("error-message") + []string{"", ` xml:lang="en"`}[r.Intn(2)] + ">" + xmlEscape(msg) + "</" + q("error-message") + ">")
+	switch r.Intn(4) {
+	case 0:
+		b.WriteString(nl + "<" + q("error-info") + "/>")
+	case 1:
+		b.WriteString(nl + "<" + q("error-info") + "><bad-element>mtu</bad-element></" + q("error-info") + ">")
+	}
+	b.WriteString(nl + "</" + q("rpc-error") + f.CloseWS + ">")
+	return b.String(), needsRootDecl
+}
+
+// decoys look like rpc-error markers to a substring search but are not rpc-error elements.
+var decoys = []struct{ name, text string }{
+	{"escaped-text", "<note>&lt;rpc-error&gt; &lt;/rpc-error&gt;</note>"},
+	{"longer-element-name", "<rpc-error-count>3</rpc-error-count>"},
+	{"other-element-name", "<my-rpc-error>x</my-rpc-error>"},
+	{"attribute-value", `<note about="rpc-error">y</note>`},
+}
+
+// literalDecoys carry a literal marker inside CDATA / a comment (legal XML, not an element).
+var literalDecoys = []struct{ name, text string }{
+	{"cdata", "<note><![CDATA[<rpc-error>]]></note>"},
+	{"comment", "<!-- </rpc-error> -->"},
+}
+
+// genXMLReply draws a well-formed rpc-reply of about n bytes with nErr rpc-error elements.
+func genXMLReply(r *rand.Rand, id, n, nErr int, hashLines, literal bool) (payload string, variant string) {
+	var forms []string
+	rootDecl := map[string]bool{}
+	var parts []string
+	size := 0
+	for size < n {
+		name := "leaf" + fmt.Sprint(r.Intn(9))
+		p := "<" + name + ">" + xmlEscape(genText(r, 1+r.Intn(60), hashLines)) + "</" + name + ">"
+		parts = append(parts, p)
+		size += len(p)
+	}
+	for i := 0; i < nErr; i++ {
+		f := GenErrForm(r)
+		e, need := f.Render(r, genText(r, r.Intn(40), hashLines))
+		if need {
+			rootDecl[f.Prefix] = true
+		}
+		forms = append(forms, f.String())
+		k := r.Intn(len(parts) + 1)
+		parts = append(parts[:k], append([]string{e}, parts[k:]...)...)
+	}
+	if r.Intn(3) == 0 {
+		dcy := decoys[r.Intn(len(decoys))]
+		forms = append(forms, "decoy="+dcy.name)
+		k := r.Intn(len(parts) + 1)
+		parts = append(parts[:k], append([]string{dcy.text}, parts[k:]...)...)
+	}
+	if literal {
+		dcy := literalDecoys[r.Intn(len(literalDecoys))]
+		forms = append(forms, "literal-decoy="+dcy.name)
+		k := r.Intn(len(parts) + 1)
+		parts = append(parts[:k], append([]string{dcy.text}, parts[k:]...)...)
+	}
+	sep := []string{"", "\n", "\n  "}[r.Intn(3)]
+	open := `<rpc-reply xmlns="` + baseNS + `" ` + fmt.Sprintf(`message-id="%d"`, id)
+	if r.Intn(4) == 0 {
+		open = fmt.Sprintf(`<rpc-reply message-id="%d" xmlns="`, id) + baseNS + `"`
+	}
+	var pfx []string
+	for p := range rootDecl {
+		pfx = append(pfx, p)
+	}
+	sort.Strings(pfx)
+	for _, p := range pfx {
+		open += " xmlns:" + p + `="` + baseNS + `"`
+	}
+	body := sep + strings.Join(parts, sep) + sep
+	if !hashLines {
+		body = fixHashLines(body)
+	}
+	variant = "xml:none"
+	if len(forms) > 0 {
+		variant = "xml:" + strings.Join(forms, "+")
+	}
+	return open + ">" + body + "</rpc-reply>", variant
+}
+
 var errVariants = []string{"none", "none", "none", "rpc-error/error", "rpc-error/warning", "rpc-errors", "nc:rpc-error", "two"}
 
 func errElem(r *rand.Rand, variant string, hashLines bool) string {
@@ -160,8 +320,12 @@ type PayloadCfg struct {
 	BodyLen   int  // approximate
 	HashLines bool // lines may start with "##"
 	V10       bool // will be framed with the end-of-message delimiter
-	Pretty    bool // whitespace-rich body: pretty-printed, indented, trailing blanks, blank lines
-	Collide   bool // body holds elements/texts that collide with tokens the library scans for
+	XML       bool // force a well-formed XML reply (rpc-error elements in every lexical form)
+	XMLErrs   int  // with XML: exactly this many rpc-error elements (0: PRNG 0..3)
+	// XMLLiteralDecoy adds a literal rpc-error marker inside CDATA / a comment (dedicated witnesses only)
+	XMLLiteralDecoy bool
+	Pretty          bool // whitespace-rich body: pretty-printed, indented, trailing blanks, blank lines
+	Collide         bool // body holds elements/texts that collide with tokens the library scans for
 }
 
 // GenPayload draws a payload: [declaration] ws <rpc-reply message-id> body [rpc-error variant] </rpc-reply> ws.
@@ -174,6 +338,24 @@ func GenPayload(r *rand.Rand, cfg PayloadCfg) (p string, variant string) {
 			b.WriteString([]string{"", "\n", "\n  ", " "}[r.Intn(4)])
 		} else {
 			b.WriteString([]string{"", "", "\n", "  ", "\n\t "}[r.Intn(5)])
+		}
+		if cfg.ID > 0 && !cfg.Pretty && !cfg.Collide && (cfg.XML || r.Intn(3) == 0) {
+			nErr := []int{0, 0, 1, 1, 1, 2, 3}[r.Intn(7)]
+			if cfg.XMLErrs > 0 {
+				nErr = cfg.XMLErrs
+			}
+			var x string
+			x, variant = genXMLReply(r, cfg.ID, cfg.BodyLen, nErr, cfg.HashLines, cfg.XMLLiteralDecoy)
+			b.WriteString(x)
+			b.WriteString([]string{"", "\n", " \n\t ", "\n\n", " "}[r.Intn(5)])
+			p = b.String()
+			if !cfg.HashLines && (strings.Contains(p, "\n##") || strings.HasPrefix(p, "##")) {
+				continue
+			}
+			if cfg.V10 && strings.Index(p+ncwire.EOM, ncwire.EOM) != len(p) {
+				continue
+			}
+			return p, variant
 		}
 		variant = errVariants[r.Intn(len(errVariants))]
 		body := genText(r, cfg.BodyLen, cfg.HashLines)
@@ -267,6 +449,19 @@ func interesting(p string) (edge, rune_, attr, marker []int) {
 			}
 			off = k + len(m)
 		}
+	}
+	for off := 0; ; {
+		k := strings.Index(p[off:], "rpc-error")
+		if k < 0 {
+			break
+		}
+		k += off
+		for i := k - 4; i < k+len("rpc-error")+3; i++ {
+			if i > 0 && i < n {
+				marker = append(marker, i)
+			}
+		}
+		off = k + len("rpc-error")
 	}
 	if strings.HasPrefix(p, Decl) {
 		for i := 1; i < len(Decl); i++ {
